@@ -28,7 +28,7 @@ func histCfgFor(r *report.R, id string) (histCfg, int64) {
 func TestC15(t *testing.T) {
 	r := report.Start("C15")
 	defer r.Finish()
-	nh := r.Pick(32, 1600)
+	nh := r.Cases(32, 1600)
 	for i := 0; i < nh; i++ {
 		id := fmt.Sprintf("hist/%d", i)
 		if !r.Want(id, i) {
